@@ -28,7 +28,7 @@ type c15In struct {
 	Holders []c15Holder `json:"holders"`
 }
 
-var c15Names = []string{"db", "fs", "net", "x"}
+var c15Names = []string{"db", "dbx", "net", "x"} // "dbx" extends "db": names must be matched exactly
 
 func c15Map(r *Rand) map[string]bool {
 	m := map[string]bool{}
@@ -71,7 +71,7 @@ func c15Gen(r *Rand, tier string) interface{} {
 		// several entries, B is disjoint from both (also several entries) and must still get in
 		in.Shape = 2
 		a := map[string]bool{"db": true}
-		c := map[string]bool{"db": r.Bool(), "fs": r.Bool()}
+		c := map[string]bool{"db": r.Bool(), "dbx": r.Bool()}
 		if !c["db"] {
 			a["db"] = true // A writes db, so C (reading or writing db) must wait
 		}
